@@ -558,7 +558,160 @@ fn scenarios(tier: &str) -> Vec<C14> {
     v
 }
 
+// ---------------------------------------------------------------------------------------
+// ENABLE / DISABLE_UNSOLICITED by broadcast
+// ---------------------------------------------------------------------------------------
+
+/// enabled set before {none, all} x {ENABLE, DISABLE} x every non-empty set of classes x the three
+/// broadcast addresses x {from idle, while an unsolicited response awaits its confirm}: afterwards
+/// exactly the classes of (before + S) resp. (before - S) are reported unsolicited
+struct BroadcastConfig;
+
+impl crate::explore::CaseSpace for BroadcastConfig {
+    fn name(&self) -> String {
+        "enable-disable-by-broadcast".into()
+    }
+    fn seeded(&self) -> bool {
+        true
+    }
+    fn total(&self) -> usize {
+        2 * 2 * 7 * 3 * 2
+    }
+    fn run(&self, index: usize, transcript: bool) -> RunResult {
+        use crate::osim::{OCfg, OSim, MASTER_ADDR};
+        use dnp3::outstation::database::*;
+        let mut res = RunResult::default();
+        let before_all = index % 2 == 1;
+        let i = index / 2;
+        let enable = i % 2 == 1;
+        let i = i / 2;
+        let set = 1 + i % 7; // bit k = class k+1
+        let i = i / 7;
+        let dst = [0xFFFFu16, 0xFFFE, 0xFFFD][i % 3];
+        let during_wait = (i / 3) % 2 == 1;
+        res.obs = index as u64 + 141414;
+        let cfg = OCfg { unsolicited: true, broadcast: true, max_unsol_retries: Some(0), confirm_timeout_ms: TO, unsol_retry_delay_ms: 1000, event_buf: [10; 8], ..Default::default() };
+        let mut sim = OSim::new(&cfg, 1);
+        sim.db(|db| {
+            for (k, c) in [EventClass::Class1, EventClass::Class2, EventClass::Class3].iter().enumerate() {
+                db.add(k as u16, Some(*c), BinaryInputConfig::default());
+            }
+            // a fourth point whose event occupies the outstation while the broadcast arrives
+            db.add(3, Some(EventClass::Class1), BinaryInputConfig::default());
+        });
+        super::common::null_unsol_handshake(&mut sim);
+        let mut seq = 0u8;
+        let mut enabled = [false; 3];
+        if before_all || during_wait {
+            seq += 1;
+            sim.send(&app::request(seq, fc::ENABLE_UNSOLICITED, &app::class_headers(true, true, true, false)));
+            if before_all {
+                enabled = [true; 3];
+            }
+        }
+        sim.take_out();
+        let key = format!(
+            "{}-{}-classes{}{}{}-to-{dst:04X}-{}",
+            if before_all { "all-enabled" } else { "none-enabled" },
+            if enable { "enable" } else { "disable" },
+            if set & 1 != 0 { "1" } else { "" },
+            if set & 2 != 0 { "2" } else { "" },
+            if set & 4 != 0 { "3" } else { "" },
+            if during_wait { "during-confirm-wait" } else { "idle" }
+        );
+        let mut reported: Vec<u32> = Vec::new();
+        let mut pending_confirm: Option<u8> = None;
+        if during_wait {
+            // an unsolicited response is outstanding when the broadcast arrives
+            sim.db(|db| {
+                db.update(3, &super::common::binary(true, 5), UpdateOptions::detect_event());
+            });
+            sim.pump();
+            for t in sim.take_out() {
+                if let Some(r) = t.frag().and_then(app::Resp::parse) {
+                    if r.uns() {
+                        pending_confirm = Some(r.seq());
+                    }
+                }
+            }
+            if !before_all {
+                // only class 1 .. 3 were enabled to get here: take them back by unicast first is not
+                // possible without ending the wait, so the model starts from "all enabled"
+                enabled = [true; 3];
+            }
+        }
+        seq += 1;
+        let classes = app::class_headers(set & 1 != 0, set & 2 != 0, set & 4 != 0, false);
+        sim.send_from(MASTER_ADDR, dst, &app::request(seq, if enable { fc::ENABLE_UNSOLICITED } else { fc::DISABLE_UNSOLICITED }, &classes));
+        res.transitions += 1;
+        for k in 0..3 {
+            if set & (1 << k) != 0 {
+                enabled[k] = enable;
+            }
+        }
+        if let Some(s) = pending_confirm {
+            sim.send(&app::confirm(s, true));
+        }
+        sim.db(|db| {
+            for k in 0..3u16 {
+                db.update(k, &super::common::binary(true, 10 + k as u64), UpdateOptions::detect_event());
+            }
+        });
+        sim.pump();
+        for _round in 0..12 {
+            let mut any = false;
+            for t in sim.take_out() {
+                let Some(r) = t.frag().and_then(app::Resp::parse) else { continue };
+                if !r.uns() {
+                    continue;
+                }
+                any = true;
+                if let Ok(hs) = r.headers() {
+                    if let Ok(ms) = crate::wire::objects::decode_measurements(&hs) {
+                        for m in ms {
+                            if m.is_event && m.index < 3 && !reported.contains(&m.index) {
+                                reported.push(m.index);
+                            }
+                        }
+                    }
+                }
+                sim.send(&app::confirm(r.seq(), true));
+            }
+            if !any {
+                sim.advance(1000);
+            }
+        }
+        if let Some(f) = sim.failure() {
+            res.violation = Some(Violation::new("C14.X0", f.clone(), f));
+            return res;
+        }
+        reported.sort();
+        let want: Vec<u32> = (0..3u32).filter(|k| enabled[*k as usize]).collect();
+        if transcript {
+            res.transcript.push(format!("{key}: classes reported unsolicited {:?}, enabled by the model {:?}", reported.iter().map(|k| k + 1).collect::<Vec<_>>(), want.iter().map(|k| k + 1).collect::<Vec<_>>()));
+        }
+        if reported != want {
+            let clause = if reported.iter().any(|k| !want.contains(k)) { "C14.B1" } else { "C14.B2" };
+            res.violation = Some(Violation::new(
+                clause,
+                if clause == "C14.B1" { "event-of-a-class-disabled-by-broadcast-reported-unsolicited" } else { "event-of-a-class-enabled-by-broadcast-never-reported-unsolicited" },
+                format!("{key}: classes reported unsolicited {:?}, expected {:?}", reported.iter().map(|k| k + 1).collect::<Vec<_>>(), want.iter().map(|k| k + 1).collect::<Vec<_>>()),
+            ));
+            return res;
+        }
+        res.nontrivial = true;
+        res.model_states.push((set * 4 + enable as usize * 2 + before_all as usize) as u64);
+        res
+    }
+}
+
 pub fn replay(scenario: &str, path: &[usize]) -> Option<RunResult> {
+    {
+        use crate::explore::CaseSpace;
+        if scenario == BroadcastConfig.name() {
+            return Some(BroadcastConfig.run(path[0], true));
+        }
+    }
     scenarios("thorough").into_iter().find(|s| s.inner.name == scenario).map(|s| s.run(path, true))
 }
 
@@ -567,9 +720,10 @@ pub fn check(tier: &str) -> i32 {
     for s in scenarios(tier) {
         c.explore(&s);
     }
+    c.cases(&BroadcastConfig);
     c.finish(
         "model_checking",
-        "every event history over the listed alphabet (updates in two classes, ENABLE/DISABLE_UNSOLICITED for class 1 / all, right and wrong unsolicited confirms, solicited confirm, READ class 1 / class 0, another request, time advances to confirm timeout -1 ms / +1 ms / exactly and around the retry delay, reconnect) from a freshly created outstation (start-up null response included) up to the listed depth, followed by a liveness drain with an ideal master; a temporal monitor over virtual timestamps checks every transmitted fragment; non-trivial = at least two unsolicited series were observed; distinct = distinct observation trace",
+        "(broadcast) {nothing, everything} enabled before x {ENABLE, DISABLE}_UNSOLICITED x the 7 non-empty class sets x the 3 broadcast addresses x {from idle, while an unsolicited response awaits its confirm}: afterwards exactly the classes of the resulting set are reported unsolicited; (histories) every event history over the listed alphabet (updates in two classes, ENABLE/DISABLE_UNSOLICITED for class 1 / all, right and wrong unsolicited confirms, solicited confirm, READ class 1 / class 0, another request, time advances to confirm timeout -1 ms / +1 ms / exactly and around the retry delay, reconnect) from a freshly created outstation (start-up null response included) up to the listed depth, followed by a liveness drain with an ideal master; a temporal monitor over virtual timestamps checks every transmitted fragment; non-trivial = at least two unsolicited series were observed; distinct = distinct observation trace",
         &[
             "confirm timeout 5 s; retry delay 5 s and 2 s; retry limits 0,1 (quick) and None,0,1,2 (thorough)",
             "after a reconnect the monitor does not constrain when the next series starts",
